@@ -151,11 +151,8 @@ def run(ctx: RuleContext, p: Program) -> None:
     rule_sp_guard(ctx, p, 'SP-GUARD')
     rule_sp_range(ctx, p, 'SP-RANGE')
     rule_sp_route(ctx, p, 'SP-ROUTE')
-    try:
-        from . import grammar_rules
-        grammar_rules.rule_spacing_re(ctx, p, 'SPACING-RE')
-    except ImportError:
-        pass
+    from . import grammar_rules
+    grammar_rules.rule_spacing_re(ctx, p, 'SPACING-RE')
     ctx.not_decided += ['which invisible tokens neighbour a model at run time', 'that adjacent models see the same run (follows from '
                         'the mirror-image getters, not observed)']
     ctx.assumptions += ['TokenStore.get_prev/get_next/splice/insert semantics (C07)']
